@@ -54,7 +54,8 @@ Definition grid_ok (c : grid_case) : bool :=
               | KStrict =>
                   match eval_call cx e with
                   | [] => f_nested e || negb (has_incompat o)
-                  | _ => has_incompat o
+                  | Incompatible _ :: _ => has_incompat o
+                  | _ => match o with GNone => false | _ => true end   (* refused data type: some error is reported *)
                   end
               end
           end
@@ -65,12 +66,21 @@ Definition grid_mismatches (cs : list grid_case) : list nat :=
   flat_map (fun c => if grid_ok c then [] else match c with (i, _, _, _) => [i] end) cs.
 
 (* the dynamic type of eval.Current() (and the interfaces it implements) per context *)
-Definition ctx_case := (nat * ctx * list etype)%type.
+Definition ctx_case := (nat * ctx * list etype * option dkind)%type.
+
+Definition dkind_eq_dec (a b : dkind) : {a = b} + {a <> b}.
+Proof. decide equality. Defined.
 
 Definition ctx_ok (c : ctx_case) : bool :=
   match c with
-  | (_, cx, obs) => forallb (fun t => tmem t obs) (ctx_types cx) && forallb (fun t => tmem t (ctx_types cx)) obs
+  | (_, cx, obs, dt) =>
+      forallb (fun t => tmem t obs) (ctx_types cx) && forallb (fun t => tmem t (ctx_types cx)) obs &&
+      match ctx_dtype cx, dt with
+      | Some a, Some b => if dkind_eq_dec a b then true else false
+      | None, _ => true          (* not an attribute context: the data type plays no role *)
+      | Some _, None => false
+      end
   end.
 
 Definition ctx_mismatches (cs : list ctx_case) : list nat :=
-  flat_map (fun c => if ctx_ok c then [] else match c with (i, _, _) => [i] end) cs.
+  flat_map (fun c => if ctx_ok c then [] else match c with (i, _, _, _) => [i] end) cs.
